@@ -2,8 +2,9 @@ PROP = dict(
     props="Props/C08.v",
     tie={"modules": ["Store", "Crash"],
          "fns": {"crash_point": ("crash_point_run", "Z.eqb", "(Z * Z * bool) * Z")}},
-    suites=[{"bin": "c07", "name": "crash", "n": {"quick": 120, "thorough": 2500}}],
-    rule="fault enumeration on the real store: histories of 2-7 commits, then one commit (patch of >= 2 keys) or one rollback under a fault-injecting goleveldb storage that lets k journal writes through (k = 0..total) and refuses the rest, additionally with the first refused write torn (half of its bytes on disk); the directory is copied at the crash, reopened by a fresh manager and observed (frontier id, full API dump, presence of redo/undo per height); then the operation is re-delivered / the commit rolled back and compared with a crash-free run; a case = (writes of the operation, crash point, torn?); distinct by (history, crash point); non-trivial = every case",
+    suites=[{"bin": "c07", "name": "crash", "n": {"quick": 120, "thorough": 2500}},
+            {"bin": "c06", "name": "nodecrash", "n": {"quick": 12, "thorough": 300}}],
+    rule="fault enumeration on the real store: histories of 2-7 commits, then one commit (patch of >= 2 keys) or one rollback under a fault-injecting goleveldb storage that lets k journal writes through (k = 0..total) and refuses the rest, additionally with the first refused write torn (half of its bytes on disk); the directory is copied at the crash, reopened by a fresh manager and observed (frontier id, full API dump, presence of redo/undo per height); then the operation is re-delivered / the commit rolled back and compared with a crash-free run; suite nodecrash: the same at node level — a real node (chain, consensus, verifier, vm, ChainBridge) whose chain database sits on the fault-injecting storage dies while a momentum delivered by a peer is being committed; the image is reopened by a fresh node, compared with the node states before / after that momentum, and the rest of the chain (the interrupted momentum included) is delivered again and compared with a crash-free node; a case = (writes of the operation, crash point, torn?); distinct by (history, crash point); non-trivial = every case",
     explanation="Theorems: every crash point of a commit / rollback leaves the durable state equal to the state before or the state after (the model issues one atomic batch, as the fixed code does); a restarted store keeps the invariant, so everything that follows (re-delivery, competing momentum, rollback) refines the specification from the same chain. The correspondence check counts the journal writes of the real operation (must be 1) and classifies every reopened crash image.",
     assumptions=["goleveldb applies one Write(batch) atomically and drops a torn journal record on recovery (exercised by the fault injection, not proved)",
                  "fsync honesty of the OS/disk is out of scope"],
